@@ -70,8 +70,9 @@ type Thread struct {
 	exited   chan struct{}
 	fn       func()
 	started  bool
-	// race-mode token (address used for thread create/join edges)
-	tok byte
+	// race-mode tokens (addresses used for thread join / create edges)
+	tok  byte
+	stok byte
 }
 
 type Timer struct {
@@ -234,9 +235,11 @@ func Run(cfg Config, env any, main func()) *Exec {
 	if s.maxVirt == 0 {
 		s.maxVirt = int64(time.Hour)
 	}
+	t0 := &Thread{}
+	raceSpawn(t0)
 	raceDisable()
 	active = s
-	t0 := s.newThread("main", main)
+	s.startThread(t0, "main", main)
 	t0.st = tsRunning
 	s.cur = t0
 	t0.resume <- struct{}{}
@@ -251,6 +254,10 @@ func Run(cfg Config, env any, main func()) *Exec {
 	}
 	active = nil
 	raceEnable()
+	// everything the execution's threads did happens-before whatever the caller (and the next execution) does
+	for _, t := range s.threads {
+		RaceJoin(t)
+	}
 	x := &Exec{Outcome: s.outcome, Points: s.points, Steps: s.steps, Virtual: time.Duration(s.now), Crash: s.crash,
 		Blocked: s.blocked, DivergeAt: s.diverge, Threads: len(s.threads), TraceLog: s.trace}
 	return x
@@ -258,10 +265,16 @@ func Run(cfg Config, env any, main func()) *Exec {
 
 //go:norace
 func (s *Sched) newThread(name string, fn func()) *Thread {
-	t := &Thread{ID: len(s.threads), Name: name, st: tsReady, deadline: -1, resume: make(chan struct{}, 1), exited: make(chan struct{}), fn: fn}
+	t := &Thread{}
+	s.startThread(t, name, fn)
+	return t
+}
+
+//go:norace
+func (s *Sched) startThread(t *Thread, name string, fn func()) {
+	t.ID, t.Name, t.st, t.deadline, t.resume, t.exited, t.fn = len(s.threads), name, tsReady, -1, make(chan struct{}, 1), make(chan struct{}), fn
 	s.threads = append(s.threads, t)
 	go threadMain(s, t)
-	return t
 }
 
 //go:norace
@@ -282,6 +295,9 @@ func threadMain(s *Sched, t *Thread) {
 //go:norace
 func threadEnd(s *Sched, t *Thread) {
 	r := recover()
+	if !s.aborting && (r == nil || r == any(abortSentinel)) {
+		raceThreadEnd(t) // publish "everything this thread did" to whoever joins it (while sync events are still observed)
+	}
 	raceDisable()
 	if s.aborting {
 		t.st = tsDone
@@ -295,7 +311,6 @@ func threadEnd(s *Sched, t *Thread) {
 		s.finish(Crash)
 		return
 	}
-	raceThreadEnd(t)
 	t.st = tsDone
 	s.reschedule(t)
 }
@@ -597,10 +612,10 @@ func Go(fn func()) {
 	if s.aborting {
 		return
 	}
+	nt := &Thread{}
+	raceSpawn(nt) // before the hand-off code: the parent's past happens-before the child
 	raceDisable()
-	name := fmt.Sprintf("t%d", len(s.threads))
-	nt := s.newThread(name, fn)
-	raceSpawn(nt)
+	s.startThread(nt, "t", fn)
 	raceEnable()
 	Yield("go")
 }
